@@ -2,6 +2,7 @@ from functools import reduce
 from operator import add
 from typing import Optional, Union
 
+import networkx as nx
 import sqlparse
 from sqlparse.sql import (
     Comparison,
@@ -30,6 +31,7 @@ from sqllineage.core.parser.sqlparse.utils import (
     is_subquery,
     is_token_negligible,
 )
+from sqllineage.utils.constant import NodeTag
 from sqllineage.utils.entities import AnalyzerContext
 from sqllineage.utils.helpers import trim_comment
 
@@ -247,11 +249,14 @@ class SqlParseLineageAnalyzer(LineageAnalyzer):
                 next_handler.end_of_query_cleanup(holder)
         # By recursively extracting each subquery of the parent and merge, we're doing Depth-first search
         for sq in subqueries:
-            holder |= cls._extract_from_dml(
+            subquery_holder = cls._extract_from_dml(
                 sq.query,
                 AnalyzerContext(cte=holder.cte, write={sq}),
                 metadata_provider,
             )
+            # remove WRITE tag from subquery so that the combined holder won't have multiple WRITE dataset
+            nx.set_node_attributes(subquery_holder.graph, {sq: False}, NodeTag.WRITE)
+            holder |= subquery_holder
         # replace wildcard with real columns, put here so that wildcard in subqueries are already replaced
         holder.expand_wildcard(metadata_provider)
         return holder
